@@ -22,6 +22,9 @@ def make_case(rng, i):
         return gen_planted.gen_slow(rng)
     if i % 12 == 11:
         return gen_planted.gen_repeating(rng)
+    if i % 24 == 13:
+        # a long record: a hundred or more intervals in one curve
+        return gen_planted.gen(rng, n_events=rng.randint(120, 300), gaps=rng.randint(0, 3))
     case = _make_case(rng, i)
     if i % 5 == 3:
         case = span_zero(case)
@@ -148,6 +151,8 @@ def run_dataset(ctx, prop, case, via='function', index=0, reference=None, kinds=
                 connection = sqlite3.connect(db)
             findings, stats = oracle_curves.walk_curve(connection, kind, None, ctx.rng('perturb', index))
             out[kind] = (findings, stats)
+            if stats.get('intervals-in-curve', 0) >= 50:
+                rec.hit('curves-with-50+-intervals')
             for name, n in stats.items():
                 if isinstance(n, int) and name not in ('n_levels', 'c05-nontrivial'):
                     rec.hit(kind + ':' + name, n)
